@@ -537,6 +537,22 @@ class Judge:
                 fl = o['res'].get('flags') or {}
                 if name in fl:
                     self.proc['objs'][chain['tok'][name]].forced = bool(fl[name])
+                if fl.get(name) is True and not any(ob_.unknown for ob_ in self.proc['objs'].values()):
+                    # the task reports itself as forced: by C07 its next value request executes run again - whatever the failed
+                    # deletion left behind and whatever the object held in memory. Nothing else in the process was touched.
+                    it = chain['insts'][name]
+                    ob = self.proc['objs'][chain['tok'][name]]
+                    ob.mem = False
+                    for t2, o2 in self.proc['objs'].items():
+                        if o2 is not ob and o2.locid == ob.locid:
+                            o2.unknown = True
+                    if it.kind not in PERSIST_NONE:
+                        loc = self.loc(chain, it)
+                        loc.state = 'indoubt'
+                        loc.stage_exact = False
+                        loc.last_run = {'valid': False}
+                    self.stats['forced_after_failed_delete'] = self.stats.get('forced_after_failed_delete', 0) + 1
+                    return
             else:
                 self.disc('C07', 'I-force', op['i'], 'Task.force raised', err=o['res']['err'], task=name, delete=op.get('delete'))
             self._force_failed(chain, [name])
